@@ -8,7 +8,12 @@
    supply in every OTHER denomination before and after the block, per Ethereum transaction the accounts created and the
    accounts deleted by a successful execution (predicted by its reference interpreter), per Cosmos transaction whether
    its messages were committed and the coins of its bank sends; the model (TxPipeDenom.ddeliver / dstep) must reproduce
-   every balance and every supply of every denomination after the block. *)
+   every balance and every supply of every denomination after the block.
+   Aborted executions (Model/TxPipeExt.v deliver_panic): for a transaction whose execution, by the harness's reference
+   interpreter, credits a module account or leaves a touched empty module account to the commit, the harness supplies the
+   consensus gas used it observed; the model must reproduce the class (aborted, or the earlier failure that prevents the
+   execution from being reached), the consensus result, the index, and through the post-state the balances (fee for the
+   whole limit), the sequence, the supply, the cumulative gas of the later receipts and the next base fee. *)
 From Evm Require Import TxPipe TxPipeExt CorrBase.
 From Evm Require Export TxPipeDenom.
 Open Scope Z_scope.
@@ -21,7 +26,7 @@ Record snap := mkSnap {
   sn_supply : Z; sn_base : Z; sn_gmin : Z
 }.
 
-Inductive oclass := OExec (vmerr : bool) | ODropped | ORej (code : Z) | OFailed | OOther.
+Inductive oclass := OExec (vmerr : bool) | ODropped | ORej (code : Z) | OFailed | OPanic | OOther.
 Record obs := mkObs { ob_class : oclass; ob_gw : Z; ob_gu : Z; ob_idx : Z; ob_rgas : Z; ob_cum : Z; ob_logidx : Z; ob_status : Z }.
 
 (* receipt extension (Model/TxPipeExt.v): inputs = CREATE address of (sender, nonce) and the bloom bit positions of each
@@ -32,9 +37,11 @@ Record ext := mkExt { xi_ca : Z; xi_logs : list (list Z);
 
 Inductive citem :=
 | IEth (t : txd) (o : evm_out) (ob : obs) (x : ext) (dx : devm)
+| IEthPanic (t : txd) (gu : Z) (ob : obs) (x : ext)       (* execution aborted by a panic; gu = consensus gas used, observed *)
 | ICosmos (g payer fee : Z) (inc : bool) (ok : bool) (sends : list send).
 Record block := mkBlock { b_pre : snap; b_maxgas : Z; b_items : list citem; b_post : snap; b_bloom : list Z;
-                          b_dpre : dsnap; b_dpost : dsnap }.
+                          b_dpre : dsnap; b_dpost : dsnap;
+                          b_distr : Z   (* x/distribution's module account *) }.
 
 Fixpoint lookupD (l : list (Z * Z * Z)) (d a : Z) : Z :=
   match l with [] => 0 | (d', a', v) :: r => if (d' =? d) && (a' =? a) then v else lookupD r d a end.
@@ -44,15 +51,20 @@ Fixpoint lookupZ (l : list (Z * Z)) (k : Z) : Z :=
 Fixpoint memZ (l : list Z) (k : Z) : bool :=
   match l with [] => false | a :: r => (a =? k) || memZ r k end.
 
-Definition core_of (s : snap) (maxgas : Z) : st :=
-  begin_block (mkSt (lookupZ (sn_bal s)) (lookupZ (sn_seq s)) (memZ (sn_exists s)) (memZ (sn_code s))
-                    (sn_supply s) (sn_base s) (sn_gmin s) (if 0 <? maxgas then maxgas else 0) 0 0 0 0 false false).
+(* TxPipe.begin_block empties the fee collector ("x/distribution BeginBlock sweeps the fee collector into the
+   distribution module account"); the module accounts being part of the address universe now, the other half of
+   AllocateTokens' SendCoinsFromModuleToModule is applied here: the distribution account gains what the collector held *)
+Definition core_of (s : snap) (maxgas distr : Z) : st :=
+  let s0 := mkSt (lookupZ (sn_bal s)) (lookupZ (sn_seq s)) (memZ (sn_exists s)) (memZ (sn_code s))
+                 (sn_supply s) (sn_base s) (sn_gmin s) (if 0 <? maxgas then maxgas else 0) 0 0 0 0 false false in
+  let s1 := begin_block s0 in
+  set_bal s1 (add_to (bal s1) distr (bal s0 FEE_COLLECTOR)).
 
 (* x/distribution's BeginBlock sweep of the fee collector moves whatever it holds in ANY denomination into the
    distribution module account; the fee collector never holds another denomination here (fees are paid in the EVM
    denomination), which the comparison of its post-block balances confirms *)
 Definition ledger_of (s : dsnap) : ledger := mkLedger (lookupD (dn_bal s)) (lookupZ (dn_supply s)).
-Definition st_of (b : block) : dst := mkDst (core_of (b_pre b) (b_maxgas b)) (ledger_of (b_dpre b)).
+Definition st_of (b : block) : dst := mkDst (core_of (b_pre b) (b_maxgas b) (b_distr b)) (ledger_of (b_dpre b)).
 
 Definition class_of (o : outcome) : oclass :=
   match o with
@@ -69,16 +81,18 @@ Definition oclass_eqb (a b : oclass) : bool :=
   | ODropped, ODropped => true
   | ORej x, ORej y => x =? y
   | OFailed, OFailed => true
+  | OPanic, OPanic => true
   | _, _ => false
   end.
 
 (* log start index is only shown when the receipt has logs *)
-Definition res_matches (r : txres) (nlogs : Z) (ob : obs) : bool :=
-  oclass_eqb (class_of (r_out r)) (ob_class ob)
+Definition res_matches_class (c : oclass) (r : txres) (nlogs : Z) (ob : obs) : bool :=
+  oclass_eqb c (ob_class ob)
   && (r_gas_wanted r =? ob_gw ob) && (r_gas_used r =? ob_gu ob)
   && (r_tx_index r =? ob_idx ob) && (r_receipt_gas r =? ob_rgas ob) && (r_cum_gas r =? ob_cum ob)
   && ((if 0 <? nlogs then r_log_start r else -1) =? ob_logidx ob)
   && (r_status r =? ob_status ob).
+Definition res_matches (r : txres) (nlogs : Z) (ob : obs) : bool := res_matches_class (class_of (r_out r)) r nlogs ob.
 
 Definition subsetZ (a b : list Z) : bool := forallb (memZ b) a.
 Definition seteqZ (a b : list Z) : bool := subsetZ a b && subsetZ b a.
@@ -90,6 +104,13 @@ Definition ext_matches (t : txd) (r : txres) (x : ext) : bool :=
   | Some rx => optZ_eqb (x_contract rx) (xo_ca x) && seteqZ (x_bloom rx) (xo_bloom x)
   | None => optZ_eqb None (xo_ca x) && match xo_bloom x with [] => true | _ => false end
   end.
+
+(* an aborted execution is shown as such exactly when the execution was reached; otherwise the earlier outcome *)
+Definition panic_class (s : st) (t : txd) (r : txres) : oclass :=
+  if panic_reached s t then OPanic else class_of (r_out r).
+(* no receipt: no reported address, no bloom *)
+Definition ext_none (x : ext) : bool :=
+  optZ_eqb None (xo_ca x) && match xo_bloom x with [] => true | _ => false end.
 
 (* the interpreter's own movements net to minus what it destroyed (hypothesis of C04_balances_sum_to_minus_burns),
    and the number of logs is the number of logs *)
@@ -116,6 +137,14 @@ Fixpoint run_items (s : dst) (l : list citem) : dst * bool * list (option rext) 
       let okr := res_matches res (match r_out res with Executed _ => e_logs o | _ => 0 end) ob
                  && ext_matches t res x && oracle_consistent o x && denom_consistent dx in
       let '(s2, ok2, rx) := run_items s1 r in (s2, okr && ok2, receipt_ext t (xi_ca x) (xi_logs x) res :: rx)
+  | IEthPanic t gu ob x :: r =>
+      let '(s1, rs) := xstep s (XPanic t gu) in
+      let okr := match rs with
+                 | [res] => res_matches_class (panic_class (d_core s) t res) res 0 ob && ext_none x
+                            && (0 <=? gu) && (gu <=? t_gas t)
+                 | _ => false
+                 end in
+      let '(s2, ok2, rx) := run_items s1 r in (s2, okr && ok2, None :: rx)
   | ICosmos g payer fee inc ok sends :: r =>
       let okc := sends_wf sends && cosmos_consistent (d_other s) ok sends in
       let '(s1, _) := dstep s (DCosmos g payer fee inc ok sends) in
@@ -167,6 +196,11 @@ Fixpoint items_diag (s : dst) (l : list citem) : list (bool * bool * bool) :=
       (res_matches res (match r_out res with Executed _ => e_logs o | _ => 0 end) ob, ext_matches t res x,
        oracle_consistent o x && denom_consistent dx)
       :: items_diag s1 r
+  | IEthPanic t gu ob x :: r =>
+      let '(s1, rs) := xstep s (XPanic t gu) in
+      (match rs with [res] => res_matches_class (panic_class (d_core s) t res) res 0 ob | _ => false end, ext_none x,
+       (0 <=? gu) && (gu <=? t_gas t))
+      :: items_diag s1 r
   | ICosmos g payer fee inc ok sends :: r =>
       let '(s1, _) := dstep s (DCosmos g payer fee inc ok sends) in
       (true, sends_wf sends, cosmos_consistent (d_other s) ok sends) :: items_diag s1 r
@@ -177,6 +211,7 @@ Fixpoint predicted (s : dst) (l : list citem) : list txres :=
   match l with
   | [] => []
   | IEth t o ob _ dx :: r => let '(s1, res) := ddeliver s t o dx in res :: predicted s1 r
+  | IEthPanic t gu _ _ :: r => let '(s1, rs) := xstep s (XPanic t gu) in rs ++ predicted s1 r
   | ICosmos g payer fee inc ok sends :: r => let '(s1, _) := dstep s (DCosmos g payer fee inc ok sends) in predicted s1 r
   end.
 Definition block_pred (b : block) := predicted (st_of b) (b_items b).
@@ -189,22 +224,27 @@ Definition block_post (b : block) :=
    map (fun kv => (kv, l_supply (d_other d1) (fst kv))) (dn_supply (b_dpost b))).
 
 (* the items as the histories of Proofs/TxPipeDenomProofs.v see them *)
-Definition ditem_of (c : citem) : ditem :=
+Definition xitem_of (c : citem) : xitem :=
   match c with
-  | IEth t o _ _ dx => DEth t o dx
-  | ICosmos g payer fee inc ok sends => DCosmos g payer fee inc ok sends
+  | IEth t o _ _ dx => XItem (DEth t o dx)
+  | IEthPanic t gu _ _ => XPanic t gu
+  | ICosmos g payer fee inc ok sends => XItem (DCosmos g payer fee inc ok sends)
   end.
 
 (* the state the checker compares with the committed post-state is the final state of the model's history
-   (TxPipeDenom.drun) over the block's items: the theorems of Properties/C04.v about dfinal / drun speak about it *)
-Lemma run_items_is_drun : forall l s, fst (fst (run_items s l)) = fst (drun s (map ditem_of l)).
+   (TxPipeDenom.xrun) over the block's items: the theorems of Properties/C04.v .. C13.v about xfinal / xrun / xtrace speak
+   about it *)
+Lemma run_items_is_xrun : forall l s, fst (fst (run_items s l)) = fst (xrun s (map xitem_of l)).
 Proof.
   induction l as [|c r IH]; intros s; [reflexivity|].
-  destruct c as [t o ob x dx|g payer fee inc ok sends]; cbn [run_items map ditem_of drun].
-  - cbn [dstep]. destruct (ddeliver s t o dx) as [s1 res]. specialize (IH s1).
-    destruct (run_items s1 r) as [[s2 ok2] rx]. destruct (drun s1 (map ditem_of r)) as [s3 r3].
+  destruct c as [t o ob x dx|t gu ob x|g payer fee inc ok sends]; cbn [run_items map xitem_of xrun].
+  - cbn [xstep dstep]. destruct (ddeliver s t o dx) as [s1 res]. specialize (IH s1).
+    destruct (run_items s1 r) as [[s2 ok2] rx]. destruct (xrun s1 (map xitem_of r)) as [s3 r3].
     cbn [fst] in *. exact IH.
-  - destruct (dstep s (DCosmos g payer fee inc ok sends)) as [s1 rs]. specialize (IH s1).
-    destruct (run_items s1 r) as [[s2 ok2] rx]. destruct (drun s1 (map ditem_of r)) as [s3 r3].
+  - destruct (xstep s (XPanic t gu)) as [s1 rs]. specialize (IH s1).
+    destruct (run_items s1 r) as [[s2 ok2] rx]. destruct (xrun s1 (map xitem_of r)) as [s3 r3].
+    cbn [fst] in *. exact IH.
+  - cbn [xstep]. destruct (dstep s (DCosmos g payer fee inc ok sends)) as [s1 rs]. specialize (IH s1).
+    destruct (run_items s1 r) as [[s2 ok2] rx]. destruct (xrun s1 (map xitem_of r)) as [s3 r3].
     cbn [fst] in *. exact IH.
 Qed.
